@@ -830,6 +830,18 @@ def static_battery():
                       note="a program that reads an output is not static"))
     b.append(Scenario("A Y\n(Y) X\n", S, mode="both", default_answer=[1, 0], expect={"static": "err"}, note="reads an output in a row"))
     b.append(Scenario("A Y\nloop(i, Q)\n1 X\nend loop\n", S, mode="both", default_answer=[0, 2], expect={"static": "err"}, note="reads an output in a loop bound"))
+    # second round: a name that was a loop counter is an output read again after the loop; iterators abandoned half-way
+    b.append(Scenario("A Y\nloop(Q,2)\n1 X\nend loop\n(Q+1) X\n", S, mode="both", default_answer=[0, 6], expect={"static": "err"},
+                      note="an output read after a loop whose counter had the same name"))
+    b.append(Scenario("A Y\nloop(i,2)\nlet Q = 1;\n1 X\nend loop\n(Q+1) X\n", S, mode="both", default_answer=[0, 6], expect={"static": "err"},
+                      note="an output read after a loop in which a variable had the same name"))
+    b.append(Scenario("A Y\nrepeat(2) 1 X\n(n) X\n", S + [("out", "n", 8)], mode="both", default_answer=[0, 6, 2], expect={"static": "err"},
+                      note="an output named n read after a repeat"))
+    for k in (1, 2, 4):
+        b.append(Scenario(prog, S, mode="both", default_answer=[3, 4], abandon=k, expect={"static": "ok"},
+                          note="another iterator over the same test is dropped after %d rows first" % k))
+    b.append(Scenario("A CLK Y Q\nX C 1 2\n", S, mode="both", default_answer=[1, 2], abandon=2, expect={"static": "ok"},
+                      note="an iterator dropped in the middle of an X / C expansion leaves nothing behind"))
     decl = "A Y V1 V2 V3 V4 V5\n" + "".join("declare V%d = Y + %d;\n" % (k, k) for k in (3, 1, 5, 2, 4)) + "1 X 1 2 3 4 5\n"
     b.append(Scenario(decl, S, mode="both", default_answer=[0, 0], repeat_parse=40, expect={"static": "err", "reparse": True},
                       note="five declarations: repeated parses give equal tests"))
